@@ -9,6 +9,8 @@
 import QExPy.Lemmas.Units
 import QExPy.Lemmas.UnitsDefs
 import QExPy.Model.UnitDefs
+import QExPy.Model.UnitWritten
+import QExPy.Lemmas.ParseSpec
 
 namespace QExPy
 open U
@@ -424,5 +426,72 @@ example : runReqs [] [.define "N".toList "kg*m".toList, .define "N".toList "kg*m
   rw [C18_rejected_requests_invisible]
   simp only [List.filter_cons, h1, h2, if_true, List.filter_nil]
   rfl
+
+/-! ### definitions and operands as the user writes them -/
+
+private theorem mem_define (defs : Defs) (n : Sym) (u : Units) (q : Sym × Units)
+    (h : q ∈ define defs n u) : q ∈ defs ∨ q = (n, u) := by
+  induction defs with
+  | nil => simp only [define, List.mem_singleton] at h; exact Or.inr h
+  | cons p r ih =>
+    obtain ⟨m, d⟩ := p
+    simp only [define] at h
+    split at h
+    · rcases List.mem_cons.mp h with h | h
+      · subst_vars; exact Or.inr rfl
+      · exact Or.inl (List.mem_cons_of_mem _ h)
+    · rcases List.mem_cons.mp h with h | h
+      · exact Or.inl (by rw [h]; exact List.mem_cons_self)
+      · rcases ih h with h | h
+        · exact Or.inl (List.mem_cons_of_mem _ h)
+        · exact Or.inr h
+
+private theorem stepReq_WF (defs : Defs) (hd : ∀ q ∈ defs, WF q.2) (r : DefReq) :
+    ∀ q ∈ stepReq defs r, WF q.2 := by
+  cases r with
+  | clear => intro q hq; simp [stepReq] at hq
+  | define n e =>
+    simp only [stepReq, defineStep, defineReq]
+    cases hn : nameOk n
+    · simpa using hd
+    · cases hp : parse e with
+      | none => simpa using hd
+      | some u =>
+        obtain ⟨_, _, _, _, hw, _⟩ := parse_sound e u hp
+        intro q hq
+        simp only [if_true, Option.getD_some] at hq
+        rcases mem_define defs n u q hq with h | h
+        · exact hd q h
+        · rw [h]; exact hw
+
+/-- **C18 (whatever is written in a definition).** Every definition that any history of define /
+    clear requests leaves active is a key-unique exponent map — however its expression was
+    written: `N/m/m`, `kg*m*m/s^2`, `kg*m^2/(s^2*m)`, `J*J/N` mention a symbol several times and
+    are stored with the SUM of the contributions (`C12_sound`: the conventional reading).  This
+    discharges the hypothesis `hdw` of `C18_dim_preserved` for every session. -/
+theorem C18_definitions_wellformed (rs : List DefReq) : ∀ q ∈ runReqs [] rs, WF q.2 := by
+  suffices h : ∀ (defs : Defs), (∀ q ∈ defs, WF q.2) → ∀ q ∈ runReqs defs rs, WF q.2 from
+    h [] (by simp)
+  induction rs with
+  | nil => intro defs hd; simpa [runReqs] using hd
+  | cons r rs ih =>
+    intro defs hd
+    simp only [runReqs, List.foldl_cons]
+    exact ih _ (stepReq_WF defs hd r)
+
+/-- **C18 (main, formulas as typed).** The dimension is preserved for formulas whose operands
+    carry unit STRINGS in any written form (named, expanded, mixed; symbols repeated; chains of
+    `/`; brackets): when every string is accepted the typed formula evaluates like the formula
+    it denotes, to which `C18_dim_preserved` applies. -/
+theorem C18_written (rdefs : Defs) (h : OrderedR rdefs) (hdw : ∀ q ∈ rdefs, WF q.2)
+    (w : WTree) (t : UTree) (hr : w.read = some t) (hd : DomD rdefs t) :
+    ∃ u, unitOfW rdefs.reverse w = some (u, isConstT t, 0) ∧
+      ∀ s, dimU rdefs u s = dimT rdefs t s := by
+  obtain ⟨u, hu, hrest⟩ := C18_dim_preserved rdefs h hdw t hd
+  exact ⟨u, by simp only [unitOfW, hr]; exact hu, hrest⟩
+
+/-- non-vacuity: the pascal written as force per metre per metre is stored as N·m⁻² -/
+example : runReqs [] [.define "Pa".toList "N/m/m".toList] =
+    [("Pa".toList, [("N".toList, 1), ("m".toList, -2)])] := by decide +kernel
 
 end QExPy
